@@ -304,6 +304,21 @@ pub fn case(ctx: &mut Ctx, idx: u64) {
             let r = guard(f);
             cmp(ctx, &format!("performance::{name}"), r, reference.clone());
         }
+        // the same with the settings given through the builder's OWN setters before the switch (mods, clock rate, overrides,
+        // passed_objects, lazer); hardrock_offsets is left out: the osu! builder documents it as irrelevant and drops it
+        {
+            let mut s2 = spec.clone();
+            s2.hro = None;
+            let d2 = s2.to_difficulty(target);
+            let reference2 = guard(|| dump(&api::perf_calc(sc.apply(Performance::new(&conv).difficulty(d2.clone())))));
+            let r = guard(|| match crate::props::c04::apply_setters(Performance::new(&map), &s2, target).try_mode(target) {
+                Ok(p) => dump(&api::perf_calc(sc.apply(p))),
+                Err(_) => "try_mode refused".into(),
+            });
+            cmp(ctx, "performance::setters.try_mode", r, reference2.clone());
+            let r = guard(|| dump(&api::perf_calc(sc.apply(crate::props::c04::apply_setters(Performance::new(map.clone()), &s2, target).mode_or_ignore(target)))));
+            cmp(ctx, "performance::setters.mode_or_ignore(owned)", r, reference2);
+        }
 
         // try_mode after generate_state(): the builder no longer holds a map
         if map.mode == GameMode::Osu && target != GameMode::Osu {
